@@ -493,3 +493,51 @@ Print Assumptions C15_edited_roundtrip_model_facts.
 Print Assumptions C15_edited_roundtrip_merged_model_facts.
 Print Assumptions C15_printable_reachable_strings.
 Print Assumptions C15_edited_roundtrip_strings.
+
+(** ** histories that contain [Element::normalize] calls (Model/DomNormalize.v; see Properties/C12.v, C13.v)
+
+    [normalize] is a history of [append_data] / [remove_child] calls; these carry no string fact
+    ([op_facts_ok], [op_facts_ok15] are [True] for them) and [append_data] validates the RESULT, so the lexical
+    invariants and the round trip hold along histories with [normalize] calls under the same hypotheses about the
+    OTHER calls ([plain_ops nops]).  Note: a pair of Text nodes that [normalize] leaves apart ("]]" in front of
+    ">") is exactly the listed finding C15-ADJACENT-TEXT ([Known15] / [Known15m]). *)
+From XmlRs Require Import Model.DomNormalize Proofs.DomNormalizeHist Proofs.DomNormalizeC15.
+
+Theorem C15_printable_reachable_with_normalize : forall nops w,
+  WPrintable w -> Forall op_facts_ok (plain_ops nops) -> WPrintable (run_n w nops).
+Proof. exact printable_reachable_with_normalize. Qed.
+
+Theorem C15_printable_normalize : forall merged w r, WPrintable w -> WPrintable (fst (normalize merged w r)).
+Proof. exact printable_normalize. Qed.
+
+Theorem C15_lex15_reachable_with_normalize : forall nops w,
+  WLex15 w -> Forall op_facts_ok (plain_ops nops) -> Forall op_facts_ok15 (plain_ops nops) -> WLex15 (run_n w nops).
+Proof. exact lex15_reachable_with_normalize. Qed.
+
+Theorem C15_piflag_reachable_with_normalize : forall nops w, WPiFlag w -> WPiFlag (run_n w nops).
+Proof. exact piflag_reachable_with_normalize. Qed.
+
+Theorem C15_edited_roundtrip_reachable_with_normalize : forall init nops k s,
+  WInv2 init -> WLex15 init -> Forall op_facts_ok (plain_ops nops) -> Forall op_facts_ok15 (plain_ops nops) ->
+  doc_at (run_n init nops) k = Some s -> Known15 s = false ->
+  display (doc_of_store s) = show_doc s /\ pipeline_parse (show_doc s) = OOk ([], doc_of_store s).
+Proof. exact edited_roundtrip_reachable_with_normalize. Qed.
+
+Theorem C15_edited_roundtrip_merged_reachable_with_normalize : forall init nops k s,
+  WInv2 init -> WLex15 init -> Forall op_facts_ok (plain_ops nops) -> Forall op_facts_ok15 (plain_ops nops) ->
+  doc_at (run_n init nops) k = Some s -> Known15m s = false ->
+  pipeline_parse (show_doc s) = OOk ([], norm_doc (doc_of_store s)).
+Proof. exact edited_roundtrip_m_reachable_with_normalize. Qed.
+
+(** non-trivial instance: the example world of this file, a history with a split, a fresh Text node and [normalize] *)
+Example C15_normalize_example :
+  WPrintable (run_n ex_world [Op (SplitText (0, 3) 0); Op (CreateTextNode (0, 1) (dinfo [93; 93])); Normalize false (0, 2); Normalize true (0, 2)]).
+Proof. apply C15_printable_reachable_with_normalize; [exact ex_world_printable | repeat constructor]. Qed.
+
+Print Assumptions C15_printable_reachable_with_normalize.
+Print Assumptions C15_printable_normalize.
+Print Assumptions C15_lex15_reachable_with_normalize.
+Print Assumptions C15_piflag_reachable_with_normalize.
+Print Assumptions C15_edited_roundtrip_reachable_with_normalize.
+Print Assumptions C15_edited_roundtrip_merged_reachable_with_normalize.
+Print Assumptions C15_normalize_example.
